@@ -212,8 +212,8 @@ def _serializer_structural(ctx, R, s6_done):
         sample = text.replace("{}", "x").replace("%s", "x")
         try:
             tk = tokenize(R, sample.encode())
-        except rx.Undecidable:
-            tk = []
+        except rx.Undecidable as e_:
+            raise AnalysisError("S3", "the fragment %r cannot be tokenised with the current lexer rules by the regex model (%s)" % (text, e_))
         produced.update(tk)
         unk = [t for t in tk if t.startswith("<unknown")]
         if unk:
